@@ -77,11 +77,24 @@ func TestMain(m *testing.M) {
 	write("secret.txt", outside1)
 	write("public-evil/e.txt", outside2)
 	write("public-evil/index.html", outside2)
+	// "public" is the default directory, relative to the working directory
+	if err := os.Chdir(root); err != nil {
+		panic(err)
+	}
 	evid.AtExit(func() { _ = os.RemoveAll(root) })
 	evid.Main(m, "C16", rule, assumptions)
 }
 
 type Opts struct {
+	// DefaultDir: no Directory is given: the default is "public" below the
+	// working directory (which the harness makes the fixture's root).
+	DefaultDir bool `json:"directory_left_to_default,omitempty"`
+	// SharedSlice: the options are one element of a slice the application
+	// reuses: a first Static is built from it for another directory (the one
+	// next door, which holds the outside files), the element is changed to the
+	// directory under test and the Static under test is built from the same
+	// slice; the first one is thrown away.
+	SharedSlice  bool   `json:"options_slice_reused,omitempty"`
 	Prefix       string `json:"prefix"`
 	Index        string `json:"index,omitempty"`
 	ETag         bool   `json:"etag,omitempty"`
@@ -200,7 +213,22 @@ func checkCase(c Case) (out evid.Outcome) {
 	if c.Opts.CacheControl {
 		so.CacheControl = func() string { return "CACHE-VALUE" }
 	}
-	f.Use(flamego.Static(so))
+	if c.Opts.DefaultDir {
+		so.Directory = ""
+	}
+	if c.Opts.SharedSlice {
+		list := []flamego.StaticOptions{so}
+		list[0].Directory = filepath.Join(fixtureRoot, "public-evil")
+		_ = flamego.Static(list...)
+		list[0].Directory = so.Directory
+		f.Use(flamego.Static(list...))
+		out.Classes = append(out.Classes, "options-slice-reused")
+	} else {
+		f.Use(flamego.Static(so))
+	}
+	if c.Opts.DefaultDir {
+		out.Classes = append(out.Classes, "default-directory")
+	}
 	nextRan := false
 	f.Use(func(ctx flamego.Context) {
 		nextRan = true
@@ -449,6 +477,8 @@ func genCase(t *rapid.T) Case {
 		ETag:         rapid.Bool().Draw(t, "etag"),
 		Expires:      rapid.Bool().Draw(t, "expires"),
 		CacheControl: rapid.Bool().Draw(t, "cc"),
+		DefaultDir:   rapid.IntRange(0, 4).Draw(t, "defaultdir") == 0,
+		SharedSlice:  rapid.IntRange(0, 4).Draw(t, "sharedslice") == 0,
 	}
 	pre := ""
 	if strings.Trim(c.Opts.Prefix, "/") != "" {
